@@ -199,7 +199,8 @@ def ob_merge2_error(ep: int, nb: int, a0: int, a1: int, ed: int, b0: int, b1: in
 
 @obligation(quick=200, thorough=500,
             partitions_quick=[f"o == {o} and cd == {c}" for o in range(6) for c in (0, 1)],
-            partitions_thorough=[f"o == {o} and er == {e} and cd == {c}" for o in range(6) for e in (-1, 2) for c in (0, 1, 2)],
+            partitions_thorough=[f"o == {o} and er == 2 and cd == {c}" for o in range(6) for c in (0, 1, 2)]
+            + [f"o == {o} and er == -1 and cd == {c} and nb == {n} and nc == {m}" for o in range(6) for c in (0, 1, 2) for n in (1, 2) for m in (1, 2)],
             what="merge of 3 sources (batches of up to 3 completions, all 6 done-set orders), optional error in source 2, a consumer that "
                  "awaits between items (so a source can complete while the merge is suspended between two results of one batch)",
             bounds={"sources": 3, "items per source": "2, 1..2, 1..2", "delay": "0..DQ", "consumer delay": "0..1 (thorough 2)"})
